@@ -54,7 +54,7 @@ def replay(chk, cases, prop_prefix, describe):
         d = describe(c)
         chk.count(res["n"] or 1, d)
         total += res["n"]
-        if res["open"] == "fault-raised":
+        if res["open"] in ("fault-raised", "rejected-ok"):
             continue  # the injected transient fault was reported to the caller: permitted
         if res["open"] != "ok":
             chk.violation(f"{prop_prefix}:open-failed:{d}", f"well-formed product rejected: {res['open']}", {"case": c})
